@@ -381,6 +381,8 @@ pub struct Profile {
     pub txn_blocks: bool,
     /// pre-load some tables with 70 / 600 wide rows (multi-page B-trees)
     pub prefill: bool,
+    /// transaction blocks end in COMMIT most of the time (crash workloads: committed work must survive)
+    pub txn_blocks_commit: bool,
 }
 
 impl Default for Profile {
@@ -412,6 +414,7 @@ impl Default for Profile {
             allow_fk: false,
             txn_blocks: false,
             prefill: false,
+            txn_blocks_commit: false,
         }
     }
 }
@@ -587,7 +590,12 @@ pub fn history_strategy(p: &Profile) -> BoxedStrategy<History> {
             2 => (0u8..2).prop_map(Op::RollbackTo),
             1 => (0u8..2).prop_map(Op::Release),
         ];
-        let block = (proptest::collection::vec(inner, 2..10), prop_oneof![3 => Just(Op::Rollback), 1 => Just(Op::Commit), 1 => Just(Op::DropReopen)]).prop_map(|(mut v, end)| {
+        let end = if p.txn_blocks_commit {
+            prop_oneof![1 => Just(Op::Rollback), 4 => Just(Op::Commit)].boxed()
+        } else {
+            prop_oneof![3 => Just(Op::Rollback), 1 => Just(Op::Commit), 1 => Just(Op::DropReopen)].boxed()
+        };
+        let block = (proptest::collection::vec(inner, 2..10), end).prop_map(|(mut v, end)| {
             v.insert(0, Op::Begin);
             v.push(end);
             v
